@@ -330,11 +330,31 @@ pub struct Watchdog {
 struct Slot {
     since_ms: AtomicU64, // 0 = idle
     desc: Mutex<Option<Value>>,
+    /// kernel thread id of the worker that owns the slot (0 = unknown)
+    tid: AtomicU64,
+}
+
+/// CPU time (user + system, in clock ticks) the kernel has charged to a thread of this process.
+fn thread_cpu_ticks(tid: u64) -> Option<u64> {
+    let st = std::fs::read_to_string(format!("/proc/self/task/{tid}/stat")).ok()?;
+    let rest = &st[st.rfind(')')? + 1..];
+    let f: Vec<&str> = rest.split_whitespace().collect();
+    // after "pid (comm)": state is f[0]; utime and stime are fields 14 and 15 of the line = f[11], f[12]
+    Some(f.get(11)?.parse::<u64>().ok()? + f.get(12)?.parse::<u64>().ok()?)
+}
+
+fn own_tid() -> u64 {
+    std::fs::read_link("/proc/thread-self")
+        .ok()
+        .and_then(|p| p.file_name().and_then(|n| n.to_str().map(|s| s.to_string())))
+        .and_then(|s| s.parse().ok())
+        .unwrap_or(0)
 }
 
 static WD_NEXT: AtomicUsize = AtomicUsize::new(0);
 std::thread_local! {
     static WD_SLOT: usize = WD_NEXT.fetch_add(1, Ordering::SeqCst);
+    static WD_TID: u64 = own_tid();
 }
 
 impl Watchdog {
@@ -348,6 +368,7 @@ impl Watchdog {
                 .map(|_| Slot {
                     since_ms: AtomicU64::new(0),
                     desc: Mutex::new(None),
+                    tid: AtomicU64::new(0),
                 })
                 .collect(),
         );
@@ -355,12 +376,36 @@ impl Watchdog {
         let t0 = Instant::now();
         // store t0 globally through closure
         let epoch = t0;
+        // A case is a hang when it has been entered for longer than `limit` of wall-clock time AND
+        // its thread has really been running on it: at least limit/4 of CPU time since the watchdog
+        // first saw the case (clock ticks are 10 ms). On a starved machine (load far above the core
+        // count) a case can sit entered for a long time without having run; that is not a hang.
+        // A case that blocks without consuming CPU is declared a hang after 6 x limit.
+        let mut seen: Vec<(u64, Option<u64>)> = vec![(0, None); 256];
         std::thread::spawn(move || loop {
             std::thread::sleep(Duration::from_millis(200));
             let now = epoch.elapsed().as_millis() as u64 + 1;
-            for s in s2.iter() {
+            for (si, s) in s2.iter().enumerate() {
                 let since = s.since_ms.load(Ordering::SeqCst);
-                if since != 0 && now.saturating_sub(since) > limit.as_millis() as u64 {
+                if since == 0 {
+                    seen[si] = (0, None);
+                    continue;
+                }
+                let tid = s.tid.load(Ordering::SeqCst);
+                if seen[si].0 != since {
+                    seen[si] = (since, if tid != 0 { thread_cpu_ticks(tid) } else { None });
+                }
+                let wall = now.saturating_sub(since);
+                let lim = limit.as_millis() as u64;
+                let ran_ms = match (seen[si].1, if tid != 0 { thread_cpu_ticks(tid) } else { None }) {
+                    (Some(a), Some(b)) => Some(b.saturating_sub(a) * 10),
+                    _ => None,
+                };
+                let hang = wall > lim && match ran_ms {
+                    Some(r) => r >= lim / 4 || wall > 6 * lim,
+                    None => true,
+                };
+                if hang {
                     let d = s.desc.lock().unwrap().clone().unwrap_or(Value::Null);
                     let sig = sig_of(&d);
                     let known = ctx.violation(&sig, "case did not terminate within the watchdog limit (hang)", d);
@@ -381,6 +426,9 @@ impl Watchdog {
 
     pub fn enter(&self, desc: impl FnOnce() -> Value) {
         let i = WD_SLOT.with(|s| *s) % self.slots.len();
+        if self.slots[i].tid.load(Ordering::Relaxed) == 0 {
+            self.slots[i].tid.store(WD_TID.with(|t| *t), Ordering::SeqCst);
+        }
         *self.slots[i].desc.lock().unwrap() = Some(desc());
         let now = WD_EPOCH.get().unwrap().elapsed().as_millis() as u64 + 1;
         self.slots[i].since_ms.store(now, Ordering::SeqCst);
